@@ -72,6 +72,17 @@ theorem sleepUntil_covers (s : St) : ∀ d ∈ s.deadlines, ∃ t, sleepUntil s 
     rw [if_neg (by omega)]
     exact ⟨_, rfl, by omega⟩
 
+/-- obligation over the wake-up guard regenerated from ares_send_query(): when a newly enqueued query does *not* wake
+    the event thread, some deadline that was already pending is no later than the new one (so the sleep already
+    computed covers it) -/
+theorem wakeOnSend_covers (d : Nat) (p : List Nat) (h : Cares.Generated.Ev.wakeOnSend d p = false) :
+    ∃ x ∈ p, x ≤ d := by
+  unfold Cares.Generated.Ev.wakeOnSend at h
+  rw [List.all_eq_false] at h
+  obtain ⟨x, hx, hlt⟩ := h
+  simp only [decide_eq_true_eq] at hlt
+  exact ⟨x, hx, by omega⟩
+
 /-- the event thread's own step can only *enter* the waiting state from `inTimeout` (with the timeout just
     computed) or stay in it unchanged -/
 theorem et_pc_waiting (s : St) (u : Option Nat) (hu : (etStep s).pc = .waiting u) :
@@ -153,21 +164,19 @@ theorem covered_step (s : St) (st : Step) (hw : s.wakeOnEarliest = true) (h : Co
         have hu' : s.pc = .waiting u := hu
         rcases h u hu' with hwk | hc
         · exact Or.inl (by simp [hwk])
-        · by_cases he : (s.deadlines.all fun x => decide (d ≤ x)) = true
+        · by_cases he : Cares.Generated.Ev.wakeOnSend d s.deadlines = true
           · exact Or.inl (by simp [he])
           · refine Or.inr ?_
             intro d' hd'
             have hd'' : d' = d ∨ d' ∈ s.deadlines := List.mem_cons.mp hd'
             rcases hd'' with h3 | h3
-            · -- the new deadline is not the earliest: some pending x < d is already covered
+            · -- the new query did not wake the thread: some pending x ≤ d is already covered
               subst h3
-              have hf : (s.deadlines.all fun x => decide (d' ≤ x)) = false := by
-                cases hb : (s.deadlines.all fun x => decide (d' ≤ x))
+              have hf : Cares.Generated.Ev.wakeOnSend d' s.deadlines = false := by
+                cases hb : Cares.Generated.Ev.wakeOnSend d' s.deadlines
                 · rfl
                 · exact absurd hb he
-              rw [List.all_eq_false] at hf
-              obtain ⟨x, hx, hlt⟩ := hf
-              simp only [decide_eq_true_eq] at hlt
+              obtain ⟨x, hx, hlt⟩ := wakeOnSend_covers d' s.deadlines hf
               obtain ⟨t, ht, hle⟩ := hc x hx
               refine ⟨t, ht, ?_⟩
               show t ≤ max d' s.now + 1
